@@ -1,5 +1,6 @@
 import Psa.AdmitProps
 import Psa.AdmitCases
+import Psa.Generated.Facts
 /-! # C10 — only security-relevant pod updates and subresources are re-evaluated -/
 namespace PSA.Props
 open PSA
@@ -60,9 +61,13 @@ theorem C10_ignored_names : ignoredSubresources =
 
 example : ignoredSubresources.contains b!"ephemeralcontainers" = false ∧ ignoredSubresources.contains b!"resize" = false := by decide
 
+/-- tie obligation (F7): the ignored set of the code is the model's -/
+theorem C10_ignored_tied : Generated.ignoredPodSubresources = ignoredSubresources := by decide
+
 #print axioms C10_significant_iff
 #print axioms C10_insignificant
 #print axioms C10_significant
 #print axioms C10_subresource
 #print axioms C10_ignored_names
+#print axioms C10_ignored_tied
 end PSA.Props
